@@ -37,7 +37,11 @@ def _replay_chunk(args):
     logging.disable(logging.CRITICAL)
     out = []
     devs = set()
+    nontrivial = 0
     for p in paths:
+        fin = _G['nodes'][p[-1][1]]['S'] if p else _G['nodes'][init]['S']
+        if any(not a.endswith('RunHandle') for a, _ in p) or any(e[0] in ('fault', 'call') for e in fin['log']):
+            nontrivial += 1
         r = core_replay.replay_path(_G['progs'], _G['plans'], _G['nodes'], init, p)
         for _, nid in p[-1:]:
             devs |= set(_G['nodes'][nid]['S']['dev'])
@@ -47,14 +51,15 @@ def _replay_chunk(args):
             r['prog'] = _G['progs'][S0['pi'] - 1]
             r['plan'] = _G['plans'][S0['pl'] - 1]
             out.append(r)
-    return out, sorted(devs), len(paths)
+    return out, sorted(devs), nontrivial
 
 
-def graph_replay(name, progs, plans, alphabet, k, extra_defs='', procs=None, fixes=FIXES, overrides=()):
+def graph_replay(name, progs, plans, alphabet, k, extra_defs='', procs=None, fixes=FIXES, overrides=(), base='ProcessProps',
+                 spec='Spec'):
     """Dump the full state graph of the instance and replay every maximal path. -> dict"""
     plans = [list(p) for p in plans]
-    tla, cfg = core_model.mc_module('MC_' + name, progs, plans, fixes, alphabet, k, base='ProcessProps', extra_defs=extra_defs,
-                                    overrides=overrides)
+    tla, cfg = core_model.mc_module('MC_' + name, progs, plans, fixes, alphabet, k, base=base, extra_defs=extra_defs,
+                                    overrides=overrides, spec=spec)
     t0 = time.time()
     with tlc.Workdir() as wd:
         wd.write('MC_%s.tla' % name, tla)
@@ -74,13 +79,14 @@ def graph_replay(name, progs, plans, alphabet, k, extra_defs='', procs=None, fix
             jobs.append((init, paths[i:i + n]))
     _G.update(progs=progs, plans=plans, nodes=nodes)
     procs = procs or min(16, os.cpu_count() or 1)
-    divergent, devs, sample = [], set(), None
+    divergent, devs, sample, nontrivial = [], set(), None, 0
     if total:
         ctx = multiprocessing.get_context('fork')
         with ctx.Pool(procs) as pool:
-            for out, d, _ in pool.imap_unordered(_replay_chunk, jobs):
+            for out, d, nt in pool.imap_unordered(_replay_chunk, jobs):
                 divergent.extend(out)
                 devs |= set(d)
+                nontrivial += nt
         init0, p0 = jobs[len(jobs) // 2]
         S0 = nodes[init0]['S']
         longest = max(p0[0:50], key=len)
@@ -88,17 +94,17 @@ def graph_replay(name, progs, plans, alphabet, k, extra_defs='', procs=None, fix
                   'final_state': nodes[longest[-1][1]]['S']['st'] if longest else 'CREATED'}
     _G.clear()
     return {'states': len(nodes), 'transitions': sum(len(v) for v in edges.values()), 'paths': total, 'divergent': divergent,
-            'devs': devs, 'sample': sample, 'tlc_s': t1 - t0, 'parse_s': t2 - t1, 'replay_s': time.time() - t2,
+            'devs': devs, 'sample': sample, 'nontrivial': nontrivial, 'tlc_s': t1 - t0, 'parse_s': t2 - t1, 'replay_s': time.time() - t2,
             'generated': res.generated}
 
 
 def model_check(name, progs, plans, alphabet, k, invariants=(), properties=(), extra_defs='', view=False, fixes=FIXES,
-                timeout=3000, overrides=()):
+                timeout=3000, overrides=(), base='ProcessProps', spec='Spec'):
     cfgx = ''.join('INVARIANT %s\n' % i for i in invariants) + ''.join('PROPERTY %s\n' % i for i in properties)
     if view:
         cfgx += 'VIEW View\n'
-    tla, cfg = core_model.mc_module('MC_' + name, progs, plans, fixes, alphabet, k, base='ProcessProps', cfg_extra=cfgx,
-                                    extra_defs=extra_defs, overrides=overrides)
+    tla, cfg = core_model.mc_module('MC_' + name, progs, plans, fixes, alphabet, k, base=base, cfg_extra=cfgx,
+                                    extra_defs=extra_defs, overrides=overrides, spec=spec)
     with tlc.Workdir() as wd:
         wd.write('MC_%s.tla' % name, tla)
         wd.write('MC_%s.cfg' % name, cfg)
@@ -119,7 +125,8 @@ def write_replay(pid, kind, payload):
     return path
 
 
-def run_check(pid, tier, seed, mc_runs, replay_runs, level_text, assumptions, rule):
+def run_check(pid, tier, seed, mc_runs, replay_runs, level_text, assumptions, rule, level='model_checking', extra_cov=None,
+              extra_violations=0):
     """mc_runs: list of dicts for model_check; replay_runs: list of dicts for graph_replay."""
     t0 = time.time()
     violations = 0
@@ -143,12 +150,14 @@ def run_check(pid, tier, seed, mc_runs, replay_runs, level_text, assumptions, ru
         elif not res.ok:
             raise tlc.MachineryError('TLC did not complete on %s:\n%s' % (m['name'], res.out[-3000:]))
     replayed = 0
+    nontrivial = 0
     devs = set()
     samples = []
     rp_summ = []
     for r in replay_runs:
         g = graph_replay(**r)
         replayed += g['paths']
+        nontrivial += g['nontrivial']
         devs |= g['devs']
         if g['sample']:
             samples.append(g['sample'])
@@ -165,11 +174,17 @@ def run_check(pid, tier, seed, mc_runs, replay_runs, level_text, assumptions, ru
     cov = {
         'states': max(states, 1), 'transitions': max(transitions, 1), 'traces_validated_against_impl': replayed,
         'samples': samples or [{'note': 'no behaviour replayed'}],
-        'evaluations': replayed, 'rule': rule, 'exhaustive': True,
+        'evaluations': replayed, 'distinct_nontrivial': nontrivial,
+        'rule': rule + '; non-trivial = a replayed behaviour with at least one environment request, re-entrant call or injected fault '
+                       '(behaviours are distinct maximal paths of the state graph)',
+        'exhaustive': True,
         'model_checking': mc_summ, 'replay': rp_summ, 'deviation_clauses_exercised': sorted(devs),
         'fixes_modelled': FIXES,
     }
-    evidence.write(pid, tier, seed, 'model_checking', cov, time.time() - t0, violations, assumptions)
+    if extra_cov:
+        cov.update(extra_cov)
+    violations += extra_violations
+    evidence.write(pid, tier, seed, level, cov, time.time() - t0, violations, assumptions)
     return 1 if violations else 0
 
 
@@ -182,6 +197,7 @@ def replay_file(path):
         run = core_real.Run(rec['program']['steps'], rec['plan'], rec['program']['outMissing'])
         for a in rec['actions'][:rec['at']]:
             name, params = core_replay.split_action(a)
+            name = core_replay.ALIASES.get(name, name)
             if name == 'RunHandle':
                 run.run_handle()
             elif name == 'EnvCallSoon':
